@@ -249,7 +249,45 @@ fn dependency_reversed(defs: &[DefEntry]) -> Vec<usize> {
     post
 }
 
+fn entry_key(e: &DefEntry) -> (u8, String) {
+    let ns = match &*e.def {
+        Def::Prefix { .. } => 1,
+        Def::Quantity { .. } => 2,
+        Def::Category { .. } => 3,
+        _ => 0,
+    };
+    (ns, e.name.clone())
+}
+
+/// C12 speaks of uniquely named definitions. The shipped files re-open some categories (`!category x "..."`
+/// more than once; the loader deliberately does not warn about that), so the parsed list names some category
+/// ids several times. Of every identifier only the last entry - the one that takes effect - is kept; loading
+/// the reduced list in the original order must give the same database as the full list (checked by the caller).
+fn uniquely_named(defs: Vec<DefEntry>) -> (Vec<DefEntry>, Vec<Value>) {
+    let mut last: BTreeMap<(u8, String), usize> = BTreeMap::new();
+    for (i, e) in defs.iter().enumerate() {
+        last.insert(entry_key(e), i);
+    }
+    let mut dropped = vec![];
+    let mut out = vec![];
+    for (i, e) in defs.into_iter().enumerate() {
+        let k = entry_key(&e);
+        if last[&k] == i {
+            out.push(e);
+        } else {
+            let detail = match &*e.def {
+                Def::Category { display_name } => display_name.clone(),
+                _ => String::new(),
+            };
+            dropped.push(json!({"ns": k.0, "name": k.1, "display": detail}));
+        }
+    }
+    (out, dropped)
+}
+
 struct PermState {
+    full: Vec<DefEntry>,
+    dropped: Vec<Value>,
     defs: Vec<DefEntry>,
     kind: String,
     reference: String,
@@ -328,6 +366,12 @@ fn first_difference(a: &Value, b: &Value, path: String) -> Option<String> {
 }
 
 fn perm_job(st: &mut PermState, job: &Value) -> Value {
+    if job["perm"].as_str() == Some("original") {
+        // the list as parsed (with re-opened categories) against the uniquely named list, both in file order
+        let s = load_list(&st.kind, st.full.iter().map(clone_entry).collect());
+        return json!({"set": st.kind, "perm": "original", "arg": 0, "k": 1, "n": st.full.len(), "moved": 0, "digest": digest(&s),
+                      "equal": s == st.reference, "dropped": st.dropped});
+    }
     let order = perm_indices(st, job);
     let k = job["k"].as_u64().unwrap_or(1).max(1) as usize;
     let n = order.len();
@@ -375,6 +419,7 @@ fn gen_job(job: &Value) -> Value {
     let mut first: Option<String> = None;
     let mut diffs = vec![];
     let mut crashes = vec![];
+    let mut groups: Vec<(String, Value, u64)> = vec![]; // distinct dumps in order of first appearance
     for (ci, case) in cases.iter().enumerate() {
         // case: list of files, each a list of indices into texts
         let files: Vec<Vec<usize>> = case
@@ -400,7 +445,12 @@ fn gen_job(job: &Value) -> Value {
                 let msg = e.downcast_ref::<String>().cloned().or_else(|| e.downcast_ref::<&str>().map(|s| s.to_string())).unwrap_or_default();
                 crashes.push(json!({"case": ci, "files": case, "msg": msg}));
             }
-            Ok(s) => match &first {
+            Ok(s) => {
+                match groups.iter_mut().find(|g| g.0 == s) {
+                    Some(g) => g.2 += 1,
+                    None => groups.push((s.clone(), digest(&s), 1)),
+                }
+                match &first {
                 None => first = Some(s),
                 Some(f) => {
                     if *f != s && diffs.len() < 3 {
@@ -411,11 +461,13 @@ fn gen_job(job: &Value) -> Value {
                         diffs.push(json!({"case": ci}));
                     }
                 }
-            },
+            }
+            }
         }
     }
+    let groups: Vec<Value> = groups.into_iter().map(|g| json!({"digest": g.1, "loads": g.2})).collect();
     let d0: Value = first.as_ref().map(|s| serde_json::from_str(s).unwrap()).unwrap_or(Value::Null);
-    json!({"id": job["id"], "ncases": cases.len(), "digest": first.as_ref().map(|s| digest(s)), "dump": d0, "diffs": diffs, "crashes": crashes})
+    json!({"id": job["id"], "ncases": cases.len(), "digest": first.as_ref().map(|s| digest(s)), "dump": d0, "diffs": diffs, "crashes": crashes, "groups": groups})
 }
 
 // ---------------------------------------------------------------------------------------------
@@ -561,8 +613,8 @@ fn main() {
             let outp = arg_after(&args, "--out").expect("--out");
             let dumpdir = arg_after(&args, "--dumpdir");
             let mut jobs = vec![];
-            let mut perms: Vec<(String, u64)> = vec![("identity".into(), 0), ("reverse".into(), 0), ("depreversed".into(), 0)];
-            let len = if kind == "currency" { currency_overlay().expect("overlay").len() } else { gnu_units::parse_str(rink_core::DEFAULT_FILE.unwrap()).defs.len() } as u64;
+            let mut perms: Vec<(String, u64)> = vec![("original".into(), 0), ("identity".into(), 0), ("reverse".into(), 0), ("depreversed".into(), 0)];
+            let len = uniquely_named(if kind == "currency" { currency_overlay().expect("overlay") } else { gnu_units::parse_str(rink_core::DEFAULT_FILE.unwrap()).defs }).0.len() as u64;
             for i in 1..=16u64 {
                 perms.push(("rotate".into(), (len * i / 17).max(1)));
             }
@@ -571,8 +623,14 @@ fn main() {
             }
             for (p, a) in &perms {
                 for k in 1..=3u64 {
+                    if p == "original" && k > 1 {
+                        continue;
+                    }
                     jobs.push(json!({"perm": p, "arg": a, "k": k, "cutseed": seed.wrapping_add(a * 3 + k)}));
                 }
+            }
+            if let Some(inp) = arg_after(&args, "--in") {
+                jobs = read_jobs(&inp); // explicit jobs (replay)
             }
             let limits = Limits { per_job: Duration::from_secs(120), address_space: 8 << 30, stack: 0 };
             let kind2 = kind.clone();
@@ -580,10 +638,11 @@ fn main() {
                 &jobs,
                 &limits,
                 move || {
-                    let defs = if kind2 == "currency" { currency_overlay().expect("overlay") } else { gnu_units::parse_str(rink_core::DEFAULT_FILE.unwrap()).defs };
+                    let full = if kind2 == "currency" { currency_overlay().expect("overlay") } else { gnu_units::parse_str(rink_core::DEFAULT_FILE.unwrap()).defs };
+                    let (defs, dropped) = uniquely_named(full.iter().map(clone_entry).collect());
                     let reference = load_list(&kind2, defs.iter().map(clone_entry).collect());
                     let depreversed = dependency_reversed(&defs);
-                    PermState { defs, kind: kind2.clone(), reference, dumpdir: dumpdir.clone(), depreversed }
+                    PermState { full, dropped, defs, kind: kind2.clone(), reference, dumpdir: dumpdir.clone(), depreversed }
                 },
                 |st, job| perm_job(st, job),
             );
